@@ -587,18 +587,88 @@ Theorem unpack_ecs_wf : forall f s sc ab e, wf_bytes ab -> unpack_ecs f s sc ab 
 Proof.
   intros f s sc ab e Hb H. unfold unpack_ecs in H.
   destruct (f =? 0) eqn:F0.
-  - destruct (s =? 0) eqn:S0; [|discriminate]. inversion H; subst. left. simpl. auto.
+  - destruct (s =? 0) eqn:S0; [|discriminate].
+    remember first_v4 as v eqn:Hv. inversion H; subst e. left. cbn [e_fam e_src]. auto.
   - destruct (f =? 1) eqn:F1.
-    + destruct ((32 <? s) || (32 <? sc)) eqn:B; [discriminate|]. inversion H; subst.
-      right; left. simpl. apply Bool.orb_false_iff in B. destruct B as [B _]. apply N.ltb_ge in B.
+    + destruct ((32 <? s) || (32 <? sc)) eqn:B; [discriminate|].
+      remember (first_v4 + be_val (pad_to 4 ab)) as v eqn:Hv. inversion H; subst e.
+      right; left. cbn [e_fam e_src e_addr]. apply Bool.orb_false_iff in B. destruct B as [B _]. apply N.ltb_ge in B.
       split; [reflexivity|]. split; [exact B|].
       destruct (pad_to_wf 4 ab Hb) as [W L]. pose proof (be_val_bound _ W) as BV. rewrite L in BV.
       assert (P4 : 256 ^ N.of_nat 4 = 4294967296) by (vm_compute; reflexivity). rewrite P4 in BV.
       assert (C1 : first_v4 = 281470681743360) by (vm_compute; reflexivity).
       assert (C2 : after_v4 = 281474976710656) by (vm_compute; reflexivity).
-      unfold is_v4. rewrite C1, C2.
+      unfold is_v4. rewrite C2. rewrite C1 in Hv. subst v.
       apply Bool.andb_true_iff. split; [apply N.leb_le|apply N.ltb_lt]; lia.
     + destruct (f =? 2) eqn:F2; [|discriminate].
-      destruct ((128 <? s) || (128 <? sc)) eqn:B; [discriminate|]. inversion H; subst.
-      right; right. simpl. apply Bool.orb_false_iff in B. destruct B as [B _]. apply N.ltb_ge in B. auto.
+      destruct ((128 <? s) || (128 <? sc)) eqn:B; [discriminate|].
+      remember (be_val (pad_to 16 ab)) as v eqn:Hv. inversion H; subst e.
+      right; right. cbn [e_fam e_src]. apply Bool.orb_false_iff in B. destruct B as [B _]. apply N.ltb_ge in B. auto.
+Qed.
+
+(* ---------------------------------------------------------------- non-vacuity *)
+
+(* map e1: 10.0.0.0/8 -> (1,1), 10.1.0.0/16 -> (1,2), 0.0.0.0/0 -> (1,3), ::/0 -> (1,4),
+   2001:db8::/32 -> (1,5); map e2: 10.0.0.0/8 -> (2,1); resolver map m1: 0.0.0.0/0 -> (0,1), ::/0 -> (0,2) *)
+Definition ex_nets (m : mapid) : list subnet :=
+  if id_eqb m (101, 49) then
+    [mkSubnet (first_v4 + 167772160) 104 (1, 1); mkSubnet (first_v4 + 167837696) 112 (1, 2);
+     mkSubnet first_v4 96 (1, 3); mkSubnet 0 0 (1, 4); mkSubnet (536939960 * 2 ^ 96) 32 (1, 5)]
+  else if id_eqb m (101, 50) then [mkSubnet (first_v4 + 167772160) 104 (2, 1)]
+  else if id_eqb m (109, 49) then [mkSubnet first_v4 96 (0, 1); mkSubnet 0 0 (0, 2)]
+  else [].
+Definition ex_serve (premask : bool) (m8 : mapid) (q : query) : outcome :=
+  serve (fm_of m8) (fm_of (109, 49)) (gl_lpm ex_nets premask) any_env q.
+(* a query from resolver 203.0.113.9 with a cookie and an ECS option *)
+Definition ex_query (fam src scope addr : N) : query :=
+  mkQuery (Some (mkEdns 0 true 1232 [OOther 10 [1; 2]; OEcs (mkEcs fam src scope addr)])) (Some (first_v4 + 3405803785)).
+Definition scope_loc (o : outcome) : option (N * N * N * N * locid) :=
+  match o with
+  | Reply r => match reply_ecs r with
+               | Some e => Some (e_fam e, e_src e, e_scope e, e_addr e, r_loc r)
+               | None => None
+               end
+  | NoReply => None
+  end.
+
+Example ecs_example : forall premask,
+  (* 10.1.2.0/24 (query scope 9): 10.1.0.0/16 decides, scope 16 *)
+  scope_loc (ex_serve premask (101, 49) (ex_query 1 24 9 (first_v4 + 167838208))) =
+    Some (1, 24, 16, first_v4 + 167838208, (1, 2)) /\
+  (* 10.1.2.0/12: only 10.0.0.0/8 is not longer than the prefix, scope 8 *)
+  scope_loc (ex_serve premask (101, 49) (ex_query 1 12 0 (first_v4 + 167838208))) =
+    Some (1, 12, 8, first_v4 + 167838208, (1, 1)) /\
+  (* 192.0.2.0/24: the IPv4 default route decides, scope 0 *)
+  scope_loc (ex_serve premask (101, 49) (ex_query 1 24 0 (first_v4 + 3221225984))) =
+    Some (1, 24, 0, first_v4 + 3221225984, (1, 3)) /\
+  (* 2001:db8:1::/48: 2001:db8::/32 decides, scope 32 *)
+  scope_loc (ex_serve premask (101, 49) (ex_query 2 48 0 (536939960 * 2 ^ 96 + 2 ^ 80))) =
+    Some (2, 48, 32, 536939960 * 2 ^ 96 + 2 ^ 80, (1, 5)) /\
+  (* ::ffff:10.1.2.0/120 in family 2: an IPv4 client, 10.1.0.0/16 = /112 decides *)
+  scope_loc (ex_serve premask (101, 49) (ex_query 2 120 0 (first_v4 + 167838208))) =
+    Some (2, 120, 112, first_v4 + 167838208, (1, 2)) /\
+  (* ::ffff:10.1.2.0/80 in family 2: an IPv6 prefix, ::/0 decides *)
+  scope_loc (ex_serve premask (101, 49) (ex_query 2 80 0 (first_v4 + 167838208))) =
+    Some (2, 80, 0, first_v4 + 167838208, (1, 4)) /\
+  (* map e2, 11.0.0.0/8: no subnet matches, default scope 24, the resolver map decides *)
+  scope_loc (ex_serve premask (101, 50) (ex_query 1 8 0 (first_v4 + 184549376))) =
+    Some (1, 8, 24, first_v4 + 184549376, (0, 1)) /\
+  scope_loc (ex_serve premask (101, 50) (ex_query 2 48 0 (536939960 * 2 ^ 96))) =
+    Some (2, 48, 48, 536939960 * 2 ^ 96, (0, 1)) /\
+  (* no client-subnet map: scope 0, the resolver map decides *)
+  scope_loc (ex_serve premask (0, 0) (ex_query 1 24 17 (first_v4 + 167838208))) =
+    Some (1, 24, 0, first_v4 + 167838208, (0, 1)) /\
+  (* family 0: scope 0, the resolver map decides *)
+  scope_loc (ex_serve premask (101, 49) (ex_query 0 0 5 first_v4)) =
+    Some (0, 0, 0, first_v4, (0, 1)) /\
+  (* the hypotheses of the Scope section hold for this backend *)
+  (forall m c, exists r, gl_lpm ex_nets premask m c = Ok r /\
+     hit_of r = lpm (ex_nets m) (cfam c) (search_addr premask c) (eff_plen c)) /\
+  wf_ecs (mkEcs 1 24 9 (first_v4 + 167838208)).
+Proof.
+  intro premask.
+  repeat match goal with |- _ /\ _ => split end;
+    try (destruct premask; vm_compute; reflexivity).
+  - apply gl_lpm_is_lpm.
+  - right; left. vm_compute. repeat split; try reflexivity. discriminate.
 Qed.
